@@ -1071,3 +1071,302 @@ Qed.
 
 Example asg_hyps : names_wf (map (by_decl asg_decls) asg_heap2) /\ task_targets_cut (map (by_decl asg_decls) asg_heap2).
 Proof. split; [apply names_wfb_sound | apply task_targets_cutb_sound]; vm_compute; reflexivity. Qed.
+
+(* ---- order of the pre-tasks ------------------------------------------------------------- *)
+Lemma sort_keys_perm' {A} : forall (l l' : list (str * A)),
+  Permutation l l' -> (forall a b, In a l -> In b l -> fst a = fst b -> a = b) -> sort_keys l = sort_keys l'.
+Proof.
+  induction 1 as [|x l l' Hp IH|x y l|l l' l'' H1 IH1 H2 IH2]; intros K; simpl; auto.
+  - f_equal. apply IH. intros a b Ha Hb. apply K; right; auto.
+  - destruct (list_eq_dec N.eq_dec (fst x) (fst y)) as [E|E].
+    + assert (x = y) by (apply K; simpl; auto). subst. reflexivity.
+    + apply insert_key_comm. auto.
+  - rewrite IH1; auto. apply IH2. intros a b Ha Hb.
+    apply K; [apply (Permutation_in a (Permutation_sym H1) Ha) | apply (Permutation_in b (Permutation_sym H1) Hb)].
+Qed.
+
+Theorem sort_pre_perm : forall idk l l',
+  Permutation l l' -> (forall a b, In a l -> In b l -> idk a = idk b -> a = b) -> sort_pre idk l = sort_pre idk l'.
+Proof.
+  intros idk l l' P K. unfold sort_pre. f_equal. apply sort_keys_perm'.
+  - apply Permutation_map. exact P.
+  - intros a b Ha Hb E. apply in_map_iff in Ha. apply in_map_iff in Hb.
+    destruct Ha as [x [<- Hx]]. destruct Hb as [y [<- Hy]]. simpl in E. rewrite (K x y Hx Hy E). reflexivity.
+Qed.
+
+Lemma norm_node_repre decls idk nd nd' : node_repre nd nd' ->
+  (forall a b, In a (pre nd) -> In b (pre nd) -> idk a = idk b -> a = b) ->
+  norm_node decls idk nd = norm_node decls idk nd'.
+Proof.
+  intros [C [Fd [P [I [T S]]]]] K. unfold norm_node, by_pre, by_decl. simpl.
+  rewrite <- C, <- Fd, <- I, <- T, <- S. rewrite (sort_pre_perm idk _ _ P K). reflexivity.
+Qed.
+
+Lemma repre_sim decls idk h h' : heap_repre h h' -> pre_ids_distinct idk h ->
+  heap_sim (seal_edges_sorted decls idk) h h'.
+Proof.
+  intros R K. split; [eapply Forall2_len; eauto|].
+  intros n nd En. destruct (Forall2_nth _ _ _ R n nd En) as [nd' [En' Hn]].
+  exists nd'. split; auto. unfold seal_edges_sorted.
+  rewrite (norm_node_repre decls idk _ _ Hn (K nd (nth_error_In _ _ En))).
+  destruct Hn as [C [_ [_ [_ [_ S]]]]]. auto.
+Qed.
+
+(* same configuration, pre-tasks added in another order: same generated values *)
+Theorem pretask_order_irrelevant : forall esc decls idk h h' gens root jd,
+  heap_repre h h' -> pre_ids_distinct idk h ->
+  generated esc (seal_edges_sorted decls idk) h gens root jd
+  = generated esc (seal_edges_sorted decls idk) h' gens root jd.
+Proof. intros. apply generated_sim, repre_sim; auto. Qed.
+
+(* ... and parameters assigned in another order *)
+Theorem assignment_order_irrelevant_sorted : forall esc decls idk h h' gens root jd,
+  heap_reassigned h h' ->
+  generated esc (seal_edges_sorted decls idk) h gens root jd
+  = generated esc (seal_edges_sorted decls idk) h' gens root jd.
+Proof.
+  intros esc decls idk h h' gens root jd R. apply generated_sim.
+  split; [eapply Forall2_len; eauto|].
+  intros n nd En. destruct (Forall2_nth _ _ _ R n nd En) as [nd' [En' Hn]].
+  exists nd'. split; auto. unfold seal_edges_sorted, norm_node.
+  rewrite (by_decl_reassigned decls _ _ Hn). destruct Hn as [C [_ [_ [_ [_ [_ S]]]]]]. auto.
+Qed.
+
+(* the walk of a node map that keeps classes and sealed flags = the plain walk on the mapped heap *)
+Lemma generated_map : forall esc SE (g : node -> node) h gens root jd,
+  (forall nd, cls (g nd) = cls nd) -> (forall nd, sealed (g nd) = sealed nd) ->
+  generated esc (fun n nd => SE n (g nd)) h gens root jd = generated esc SE (map g h) gens root jd.
+Proof.
+  intros esc SE g h gens root jd Hc Hs. unfold generated, walk, fuel_bound. rewrite map_length.
+  assert (Cut : forall n, cut_sealed (map g h) n = cut_sealed h n).
+  { intros n. unfold cut_sealed. rewrite nth_error_map. destruct (nth_error h n); simpl; auto. }
+  rewrite (visit_map2 g SE (fun n nd => SE n (g nd)) (cut_sealed (map g h)) (cut_sealed h) h
+             (fun n nd => eq_refl) Cut).
+  destruct (visit h (fun n nd => SE n (g nd)) (cut_sealed h) (S (length h)) [] root st0) as [st|]; auto.
+  f_equal. apply flat_map_ext. intros [n pos]. unfold entries_of, gens_of. simpl.
+  rewrite nth_error_map. destruct (nth_error h n); simpl; auto. rewrite Hc. reflexivity.
+Qed.
+
+Theorem generated_sorted_norm : forall esc decls idk h gens root jd,
+  generated esc (seal_edges_sorted decls idk) h gens root jd
+  = generated esc seal_edges (map (norm_node decls idk) h) gens root jd.
+Proof. intros. apply (generated_map esc seal_edges (norm_node decls idk)); reflexivity. Qed.
+
+Theorem sorted_inside_distinct : forall decls idk h gens root jd l,
+  names_wf (map (norm_node decls idk) h) -> task_targets_cut (map (norm_node decls idk) h) -> files_ok gens ->
+  generated esc_fix (seal_edges_sorted decls idk) h gens root jd = Some l ->
+  (forall e, In e l ->
+     exists comps, comps <> [] /\ Forall (fun c => plain c = true) comps /\
+       g_path e = {| p_root := p_root jd; p_parts := p_parts jd ++ comps |}) /\
+  (forall e1 e2, In e1 l -> In e2 l ->
+     (g_node e1, g_file e1) <> (g_node e2, g_file e2) -> g_path e1 <> g_path e2).
+Proof.
+  intros decls idk h gens root jd l W T F G. rewrite generated_sorted_norm in G. split.
+  - intros e He. eapply inside_jobdir_fix; eauto.
+  - intros e1 e2 H1 H2. eapply distinct_wf; eauto.
+Qed.
+
+(* the walk in list order (the code before fixes/C17-3.diff): t.add_pretasks(a, b) and
+   t.add_pretasks(b, a) - one identifier, one job directory - swap the paths of a and b          *)
+Definition pre_gens : list (list (str * str)) := [[]; [(s_p, s_otxt)]].
+Definition pre_heap12 : heap := [ mk 0 [] [1%nat; 2%nat]; mk 1 [] []; mk 1 [] [] ].
+Definition pre_heap21 : heap := [ mk 0 [] [2%nat; 1%nat]; mk 1 [] []; mk 1 [] [] ].
+Definition pre_idk (n : nat) : str := [N.of_nat n].
+
+Example pre_heaps_repre : heap_repre pre_heap12 pre_heap21 /\ pre_ids_distinct pre_idk pre_heap12.
+Proof.
+  split.
+  - constructor; [|constructor; [|constructor; [|constructor]]]; repeat split; auto. apply perm_swap.
+  - intros nd Hnd a b Ha Hb E. unfold pre_idk in E. inversion E. apply Nat2N.inj. auto.
+Qed.
+
+Theorem pretask_order_refuted :
+  exists h h' gens root jd,
+    heap_repre h h' /\
+    generated esc_fix seal_edges h gens root jd <> generated esc_fix seal_edges h' gens root jd /\
+    (* the two pre-tasks swap their paths *)
+    exists l l' e e', generated esc_fix seal_edges h gens root jd = Some l /\
+      generated esc_fix seal_edges h' gens root jd = Some l' /\ In e l /\ In e' l' /\
+      g_node e <> g_node e' /\ g_path e = g_path e'.
+Proof.
+  exists pre_heap12, pre_heap21, pre_gens, 0%nat, ex_jd. split; [apply pre_heaps_repre|].
+  split; [vm_compute; intros E; inversion E|].
+  eexists. eexists. eexists. eexists. split; [vm_compute; reflexivity|]. split; [vm_compute; reflexivity|].
+  split; [left; reflexivity|]. split; [left; reflexivity|]. split; [simpl; discriminate | reflexivity].
+Qed.
+
+Example pre_heaps_repaired :
+  generated esc_fix (seal_edges_sorted asg_decls pre_idk) pre_heap12 pre_gens 0 ex_jd
+  = generated esc_fix (seal_edges_sorted asg_decls pre_idk) pre_heap21 pre_gens 0 ex_jd
+  /\ exists l, generated esc_fix (seal_edges_sorted asg_decls pre_idk) pre_heap21 pre_gens 0 ex_jd = Some l
+               /\ length l = 2%nat.
+Proof.
+  split; [apply pretask_order_irrelevant; apply pre_heaps_repre|].
+  eexists. split; [vm_compute; reflexivity|reflexivity].
+Qed.
+
+(* ---- non-overlapping paths --------------------------------------------------------------- *)
+Section PrefixFree.
+  Variable esc : str -> str.
+  Variable SE : nat -> node -> list edge.
+  Variable h : heap.
+  Variable gens : list (list (str * str)).
+
+  Notation cut := (cut_sealed h).
+  Notation expanded := (expanded h cut).
+  Notation out_edges := (out_edges h SE).
+  Notation path := (path h SE cut).
+
+  (* a root path that continues the root path of c1 leaves c1 by an edge whose first key is the next key *)
+  Lemma path_split : all_unamb SE h ->
+    forall a p1 c1, path a p1 c1 -> forall k rest c2, path a (p1 ++ k :: rest) c2 ->
+    exists r b, In (k :: r, b) (out_edges c1) /\ expanded b.
+  Proof.
+    intros U a p1 c1 H1. induction H1 as [a Ha | a rel b p c Ha Hin Hp IH]; intros k rest c2 H2.
+    - simpl in H2. apply path_inv in H2.
+      destruct H2 as [[E _]|[rel [b [p' [E [_ [Hin Hp]]]]]]]; [discriminate|].
+      assert (Hb := path_start _ _ _ _ _ _ Hp).
+      destruct (U a (rel, b) (rel, b) Hin Hin Hb Hb) as [Hne _]. simpl in Hne.
+      destruct rel as [|k' r]; [exfalso; apply Hne; auto|].
+      simpl in E. inversion E; subst. exists r, b. auto.
+    - assert (Hb := path_start _ _ _ _ _ _ Hp).
+      apply path_inv in H2. destruct H2 as [[E _]|[rel0 [b0 [p0 [E [_ [Hin0 Hp0]]]]]]].
+      + exfalso. rewrite <- List.app_assoc in E. apply app_eq_nil in E. destruct E as [_ E].
+        apply app_eq_nil in E. destruct E as [_ E]. discriminate.
+      + assert (Hb0 := path_start _ _ _ _ _ _ Hp0).
+        rewrite <- List.app_assoc in E.
+        assert (Ee : (rel, b) = (rel0, b0)).
+        { destruct (app_eq_prefix _ _ _ _ E) as [Hpre|Hpre].
+          - apply (U a (rel, b) (rel0, b0)); auto.
+          - symmetry. apply (U a (rel0, b0) (rel, b)); auto. }
+        inversion Ee; subst. apply app_inv_head in E. subst. eapply IH; eauto.
+  Qed.
+
+  Lemma path_nil_root : all_unamb SE h -> forall a c, path a [] c -> a = c.
+  Proof.
+    intros U a c H. apply path_inv in H. destruct H as [[_ [E _]]|[rel [b [p' [E [_ [Hin Hp]]]]]]]; auto.
+    symmetry in E. apply app_eq_nil in E. destruct E as [-> ->].
+    assert (Hb := path_start _ _ _ _ _ _ Hp).
+    destruct (U a ([], b) ([], b) Hin Hin Hb Hb) as [Hne _]. exfalso; apply Hne; auto.
+  Qed.
+
+  Lemma esc_prefix_split : (forall a b, esc a = esc b -> a = b) ->
+    forall pos1 pos2 f1 f2 x rest,
+    map esc pos2 ++ [f2] = (map esc pos1 ++ [f1]) ++ x :: rest ->
+    exists k rest', pos2 = pos1 ++ k :: rest' /\ esc k = f1.
+  Proof.
+    intros Hinj. induction pos1 as [|a p IH]; intros pos2 f1 f2 x rest E.
+    - destruct pos2 as [|k q]; simpl in E; [inversion E|]. inversion E; subst. exists k, q. auto.
+    - destruct pos2 as [|b q]; simpl in E.
+      + inversion E as [[E1 E2]]. destruct (map esc p); discriminate.
+      + inversion E as [[E1 E2]]. apply Hinj in E1. subst b.
+        destruct (IH q f1 f2 x rest E2) as [k [rest' [-> Ek]]]. exists k, rest'. auto.
+  Qed.
+
+  Theorem prefix_free : all_unamb SE h -> (forall a b, esc a = esc b -> a = b) ->
+    keys_ok esc SE h -> files_ok gens ->
+    no_file_key_clash esc SE h gens ->
+    forall root, root_files_not_out h gens root ->
+    forall jd l e1 e2, generated esc SE h gens root jd = Some l -> In e1 l -> In e2 l ->
+    ~ proper_prefix (g_path e1) (g_path e2).
+  Proof.
+    intros U Hinj K F NC root NR jd l e1 e2 El H1 H2 [_ [x [rest Hp]]].
+    destruct (generated_inv _ _ _ _ _ _ _ _ El H1) as [evs [pos1 [af1 [Ew [Hev1 [Haf1 [_ [Hf1 Hp1]]]]]]]].
+    destruct (generated_inv _ _ _ _ _ _ _ _ El H2) as [evs2 [pos2 [af2 [Ew2 [Hev2 [Haf2 [_ [Hf2 Hp2]]]]]]]].
+    rewrite Ew in Ew2. inversion Ew2; subst evs2. clear Ew2.
+    destruct (walk_correct h SE cut root) as [evs' [Ew' [Hnd [_ Hpath]]]].
+    rewrite Ew in Ew'. inversion Ew'; subst evs'. clear Ew'.
+    assert (P1 := Hpath _ _ Hev1). assert (P2 := Hpath _ _ Hev2).
+    rewrite Hp1, Hp2 in Hp.
+    rewrite !gen_value_plain in Hp;
+      try (eapply path_keys; eauto); try (eapply gens_of_files; eauto).
+    simpl in Hp. rewrite <- List.app_assoc in Hp. apply app_inv_head in Hp.
+    unfold rel_comps in Hp.
+    destruct pos1 as [|k1 p1]; destruct pos2 as [|k2 p2]; simpl in Hp.
+    - inversion Hp.
+    - inversion Hp as [[E1 E2]]. apply (path_nil_root U) in P1. subst root.
+      apply (NR af1 Haf1). auto.
+    - inversion Hp as [[E1 E2]]. destruct (map esc p1); discriminate.
+    - inversion Hp as [[E2]].
+      change (esc k2 :: map esc p2 ++ [snd af2]) with (map esc (k2 :: p2) ++ [snd af2]) in E2.
+      change (esc k1 :: (map esc p1 ++ [snd af1]) ++ x :: rest)
+        with ((map esc (k1 :: p1) ++ [snd af1]) ++ x :: rest) in E2.
+      destruct (esc_prefix_split Hinj _ _ _ _ _ _ E2) as [k [rest' [Epos Ek]]].
+      rewrite Epos in P2.
+      destruct (path_split U _ _ _ P1 _ _ _ P2) as [r [b [Hin Hb]]].
+      exact (NC _ _ _ _ _ (path_end _ _ _ _ _ _ P1) Hin Hb Haf1 Ek).
+  Qed.
+
+  Lemma no_file_key_clashb_sound : no_file_key_clashb esc SE h gens = true -> no_file_key_clash esc SE h gens.
+  Proof.
+    unfold no_file_key_clashb. rewrite forallb_forall. intros H n k r b af Hx Hin Hb Haf.
+    assert (Hn := out_edges_range SE h _ _ Hin).
+    assert (G := H n ltac:(apply in_seq; lia)).
+    apply expandedb_spec in Hx. rewrite Hx in G. rewrite forallb_forall in G.
+    specialize (G _ Hin). simpl in G. apply expandedb_spec in Hb. rewrite Hb in G.
+    rewrite forallb_forall in G. specialize (G _ Haf). apply negb_true_iff in G.
+    intros E. apply str_eqb_eq in E. congruence.
+  Qed.
+
+  Lemma root_files_not_outb_sound root : root_files_not_outb h gens root = true -> root_files_not_out h gens root.
+  Proof.
+    unfold root_files_not_outb. rewrite forallb_forall. intros H af Haf E.
+    specialize (H af Haf). apply negb_true_iff in H. apply str_eqb_eq in E. congruence.
+  Qed.
+End PrefixFree.
+
+(* packaged for the repaired code *)
+Theorem prefix_free_wf : forall h gens root jd l e1 e2,
+  names_wf h -> task_targets_cut h -> files_ok gens ->
+  no_file_key_clash esc_fix seal_edges h gens -> root_files_not_out h gens root ->
+  generated esc_fix seal_edges h gens root jd = Some l -> In e1 l -> In e2 l ->
+  ~ proper_prefix (g_path e1) (g_path e2).
+Proof.
+  intros h gens root jd l e1 e2 W T F NC NR. apply prefix_free; auto.
+  - apply names_wf_unamb; auto. - apply esc_fix_inj. - apply keys_ok_fix.
+Qed.
+
+(* without the two hypotheses: every hypothesis of distinct_wf holds and a generated file is the
+   folder in which another generated path lies.
+     class 0 (task): a: Param[C1], p = pathgenerator("out");  class 1: b: Param[C2], p = pathgenerator("b");
+     class 2: p = pathgenerator("c")                                                                   *)
+Definition ov_a : str := [97%N].  Definition ov_b : str := [98%N].  Definition ov_c : str := [99%N].
+Definition ov_gens : list (list (str * str)) := [[(s_p, k_out)]; [(s_p, ov_b)]; [(s_p, ov_c)]].
+Definition ov_heap : heap := [ mk 0 [(ov_a, VRef 1)] []; mk 1 [(ov_b, VRef 2)] []; mk 2 [] [] ].
+
+Theorem prefix_free_refuted : exists h gens root jd l e1 e2 e3,
+  names_wf h /\ task_targets_cut h /\ files_ok gens /\
+  generated esc_fix seal_edges h gens root jd = Some l /\ In e1 l /\ In e2 l /\ In e3 l /\
+  (* <job>/out is a file of the task and the folder of everything below it *)
+  proper_prefix (g_path e1) (g_path e2) /\
+  (* <job>/out/a/b is a file of configuration 1 and the folder of configuration 2 *)
+  proper_prefix (g_path e2) (g_path e3).
+Proof.
+  exists ov_heap, ov_gens, 0%nat, ex_jd. eexists.
+  exists {| g_node := 0; g_arg := s_p; g_file := k_out; g_path := {| p_root := 1; p_parts := [[74%N; 79%N; 66%N]; k_out] |} |}.
+  exists {| g_node := 1; g_arg := s_p; g_file := ov_b; g_path := {| p_root := 1; p_parts := [[74%N; 79%N; 66%N]; k_out; ov_a; ov_b] |} |}.
+  exists {| g_node := 2; g_arg := s_p; g_file := ov_c; g_path := {| p_root := 1; p_parts := [[74%N; 79%N; 66%N]; k_out; ov_a; ov_b; ov_c] |} |}.
+  split; [apply names_wfb_sound; vm_compute; reflexivity|].
+  split; [apply task_targets_cutb_sound; vm_compute; reflexivity|].
+  split; [apply files_plainb_sound; vm_compute; reflexivity|].
+  split; [vm_compute; reflexivity|].
+  split; [right; right; left; reflexivity|]. split; [right; left; reflexivity|]. split; [left; reflexivity|].
+  split; (split; [reflexivity|]).
+  - exists ov_a, [ov_b]. reflexivity.
+  - exists ov_c, []. reflexivity.
+Qed.
+
+(* the hypotheses of prefix_free_wf are satisfiable: same graph, file names that are no parameter names *)
+Definition ov_gens_ok : list (list (str * str)) := [[(s_p, s_otxt)]; [(s_p, s_otxt)]; [(s_p, s_otxt)]].
+Example ov_hyps :
+  names_wf ov_heap /\ task_targets_cut ov_heap /\ files_ok ov_gens_ok /\
+  no_file_key_clash esc_fix seal_edges ov_heap ov_gens_ok /\ root_files_not_out ov_heap ov_gens_ok 0 /\
+  exists l, generated esc_fix seal_edges ov_heap ov_gens_ok 0 ex_jd = Some l /\ length l = 3%nat.
+Proof.
+  split; [apply names_wfb_sound; vm_compute; reflexivity|].
+  split; [apply task_targets_cutb_sound; vm_compute; reflexivity|].
+  split; [apply files_plainb_sound; vm_compute; reflexivity|].
+  split; [apply no_file_key_clashb_sound; vm_compute; reflexivity|].
+  split; [apply root_files_not_outb_sound; vm_compute; reflexivity|].
+  eexists. split; [vm_compute; reflexivity|reflexivity].
+Qed.
